@@ -286,7 +286,7 @@ impl Property for C18 {
             }
             out.probe("repeated_in_one_thread", 1);
         }
-        if jbool(case, "os_entropy") {
+        if jbool(case, "os_entropy") && std::env::var("VERIF_NO_OS_ENTROPY").is_err() {
             let real = run(&mut out, "real OS entropy", &make(None, 1), false);
             if status_label(&real.status) != s0 || records(&real) != r0 {
                 out.violate(
